@@ -39,8 +39,27 @@ func c19Scalar(rng *rand.Rand) *big.Int {
 func TestVerif_C19_Gjkr(t *testing.T) {
 	r := verifkit.Start(t, "C19", "gjkr")
 	defer r.Finish()
+	c19Run(r, "gjkr", c19GjkrDecoders())
+}
+
+// TestVerif_C19_GjkrRace decodes three message kinds that carry sub-objects
+// (keys, curve points, share structs) from four goroutines.
+func TestVerif_C19_GjkrRace(t *testing.T) {
+	r := verifkit.Start(t, "C19", "gjkr-race")
+	defer r.Finish()
+	var sel []c19Decoder
+	for _, d := range c19GjkrDecoders() {
+		switch d.Type {
+		case "EphemeralPublicKeyMessage", "PeerSharesMessage", "MemberCommitmentsMessage":
+			sel = append(sel, d)
+		}
+	}
+	c19RaceRun(r, "gjkr", sel)
+}
+
+func c19GjkrDecoders() []c19Decoder {
 	const f = "marshaling.go"
-	c19Run(r, "gjkr", []c19Decoder{
+	return []c19Decoder{
 		{
 			Type: "EphemeralPublicKeyMessage", File: f,
 			New: func() c19Codec { return &EphemeralPublicKeyMessage{} },
@@ -114,5 +133,5 @@ func TestVerif_C19_Gjkr(t *testing.T) {
 			},
 			IndexPaths: []string{"1", "2*.1"},
 		},
-	})
+	}
 }
